@@ -340,7 +340,7 @@ func main() {
 	r.Assume("clause f: a 'batch' is the set of events of one request; the same set requested again is a further attempt of that batch. A second attempt is accepted after ANY 429/503/time-out answer: the statement's '(Retry-After under 60 s)' is read as describing when a retry happens, not as forbidding one after a longer Retry-After (59 vs 60 s, HTTP-date, absent, 0 are all exercised and reported in the f_* census, the only verdicts are 'never a third attempt' and 'no second attempt after any other answer')")
 	r.Assume("the statement does not say that a retry must happen, nor that a full batch is sent immediately: only the upper bounds (1.25 x BatchTimeout, Stop, two attempts) are judged")
 	r.Assume("clause e is judged per event: every event is first requested within 1.25 x BatchTimeout of its own hand-in (implied by the batch-level wording, since no member is older than the batch's first event); 'dispatched' is observed as 'the request reached the network'")
-	r.Assume("clause e weakening: time during which an earlier request to the SAME destination waits out a 429/503 Retry-After back-off is not counted against the 1.25 x BatchTimeout of that destination's later events. The transmission sends the <=5 MB requests of one oversized internal batch one after the other, so the remainder waits behind the sleeping first part (observed: 5 x 1 MB, first request answered 429 -> the fifth event leaves 1 s later); the statement speaks about dispatching batches, not about server back-pressure")
+	r.Assume("clause e weakening: time during which an earlier request to the SAME destination waits out a 429/503 Retry-After back-off BEFORE ITS SECOND ATTEMPT is not counted against the 1.25 x BatchTimeout of that destination's later events. The transmission sends the <=5 MB requests of one oversized internal batch one after the other, so the remainder waits behind the sleeping first part (observed: 5 x 1 MB, first request answered 429 -> the fifth event leaves 1 s later); the statement speaks about dispatching batches, not about server back-pressure. A sleep that FOLLOWS the second (= last) attempt is not a back-off before a retry and is not excused: signatures sleep-after-final-attempt:* (props/c26/FINDING.md)")
 	r.Assume("clause b: 'counted as an error' = the sum of libhoney_upstream_response_errors and _enqueue_errors is at least the number of dropped oversize events once every event has an outcome (exact in the fault-free scripts); an oversize event 'has its outcome' once 1.25 x BatchTimeout have passed since its hand-in or Stop() has returned")
 	r.Assume("clause b/c: serialized size of an event = size of its member of the batch array on the wire (the statement's 'alone': without the array header); the constant per-event overhead is measured once from the real encoder, sizes are then exact to the byte. Request body size = the uncompressed MessagePack body; the 5 MB group runs without compression, so this is also the size on the wire there")
 	r.Assume("a request with zero events is not judged (it carries nobody's event)")
